@@ -137,6 +137,10 @@ func (_this *arrayEncoderEngine) BeginMedia(mediaType string, onComplete func())
 	_this.setElementByteWidth(1)
 	_this.stream.WriteFmtNotLF("@%v[", mediaType)
 	_this.addElementsFunc = func(data []byte) {
+		if len(data) == 0 {
+			// A data event without bytes adds no element, so it gets no separator either.
+			return
+		}
 		_this.writeSpaceIfNotFirstElement()
 		_this.stream.WriteHexBytes(data)
 	}
@@ -166,6 +170,10 @@ func (_this *arrayEncoderEngine) BeginCustomBinary(customType uint64, onComplete
 	_this.setElementByteWidth(1)
 	_this.stream.WriteFmtNotLF("@%v[", customType)
 	_this.addElementsFunc = func(data []byte) {
+		if len(data) == 0 {
+			// A data event without bytes adds no element, so it gets no separator either.
+			return
+		}
 		_this.writeSpaceIfNotFirstElement()
 		_this.stream.WriteHexBytes(data)
 	}
